@@ -173,7 +173,8 @@ Theorem step_covers fuel cf af st c g ast :
   (Sized (us_subst st) -> sized_for (us_subst st) a0 -> forall v', aimg a0 a1 (rng e) v' -> rng g v') /\
   (acq_injective (as_list ast) = true -> forall v, rng g v -> rng e v) /\
   (forall k, In k (fv g) -> (us_next st <= k)%positive /\ (k < as_next ast)%positive) /\
-  (next <= as_next ast)%positive.
+  (next <= as_next ast)%positive /\
+  numel g = numel e /\ (forall k n n', In (k, n) (fvn g) -> In (k, n') (fvn g) -> n = n').
 Proof.
   intros U Cl An W Wa.
   destruct (pass_frame fuel true st U) as [L Bs].
@@ -186,7 +187,8 @@ Proof.
   split; [intros Hi v; exact (anti_injective af (us_next st) e c g ast Be' Bc' An Wa v Hi)|].
   split.
   - intros k Hk. split; [exact (anti_g_fresh af (us_next st) e c g ast Be' Bc' An Wa k Hk)|exact (anti_g_below af (us_next st) e c g ast Be' Bc' An Wa k Hk)].
-  - pose proof (anti_next_le af (us_next st) e c g ast Be' Bc' An). lia.
+  - split; [pose proof (anti_next_le af (us_next st) e c g ast Be' Bc' An); lia|].
+    split; [exact (anti_numel af (us_next st) e c g ast An)|exact (anti_g_consistent af (us_next st) e c g ast Be' Bc' An Wa)].
 Qed.
 
 End Pass.
